@@ -194,7 +194,7 @@ def _sroa_once(facts, body):
                             if not o['p'] or o['p'] == ['deref']:
                                 # a whole candidate stored as a field of another: keep both intact
                                 bad(src)
-                elif r == 'use' and 'l' in rv['a']:
+                elif (r == 'use' or (r == 'cast' and rv.get('kind', '').startswith('Subtype'))) and 'l' in rv['a']:
                     ks = visit_place(rv['a'], 'read')
                     if ks in ('whole', 'whole*'):
                         src = rv['a']['l'] if ks == 'whole' else alias[rv['a']['l']]
@@ -203,6 +203,16 @@ def _sroa_once(facts, body):
                         bad(dst)
                 else:
                     bad(dst)
+                    for k in ('a', 'b', 'place'):
+                        if k in rv and isinstance(rv[k], dict) and 'l' in rv[k]:
+                            ks = visit_place(rv[k], 'read')
+                            if ks in ('whole', 'whole*', 'alias'):
+                                bad(rv[k]['l'] if ks == 'whole' else alias[rv[k]['l']])
+                    for o in rv.get('ops', []):
+                        if isinstance(o, dict) and 'l' in o:
+                            ks = visit_place(o, 'read')
+                            if ks in ('whole', 'whole*', 'alias'):
+                                bad(o['l'] if ks == 'whole' else alias[o['l']])
                 continue
             if kd == 'alias':
                 # the defining statement of an alias reference (checked above); anything else writes the reference itself
@@ -357,7 +367,7 @@ def _sroa_once(facts, body):
                     for i, o in enumerate(rv['ops']):
                         out.append({'s': 'assign', 'place': {'l': newl[(dst, i)], 'p': [], 'ty': nl[newl[(dst, i)]]['ty']},
                                     'rv': {'r': 'use', 'a': rw_op(o)}, 'span': span, 'sroa': True})
-                elif rv['r'] == 'use' and 'l' in rv['a']:
+                elif rv['r'] in ('use', 'cast') and 'l' in rv['a']:
                     a = rv['a']
                     src = a['l'] if a['l'] in good else alias.get(a['l'])
                     for fi in sorted(fset[find(dst)]):
